@@ -33,7 +33,7 @@ def clsOf : Kind → String
 `len(other) != k` guard demands (skeletons), or — without such a guard — whatever numpy broadcasts against `(N, 3)`. -/
 def factAccepts (f : OpFact) : Factor → Bool
   | .s _ => true
-  | .v3 _ => f.reqLen == 0 || f.reqLen == 3
+  | .v3 _ => f.reqLen == 0 || f.reqLen == 3 || f.pads3
   | .v4 _ _ => f.reqLen == 4
 
 /-- the operator described by one extracted row, applied to a neuron -/
@@ -49,8 +49,9 @@ def applyFact (f : OpFact) (n : Neuron) (a : Factor) (p : Int) : Option Neuron :
       else none
     let un : Option Units :=
       if f.unitsOp == "" then some n.units
-      else if f.compact then (binop f.unitsOp).map fun o => (⟨v3op o n.units.mag a.xyz, n.units.base⟩ : Units).compact p
-      else none
+      else (binop f.unitsOp).map fun o =>
+        if f.compact then (⟨v3op o n.units.mag a.xyz, n.units.base⟩ : Units).compact p
+        else ⟨v3op o n.units.mag a.xyz, n.units.base⟩
     match cn, un with
     | some conns, some units =>
       if f.coordTarget == "offset" then
@@ -102,25 +103,26 @@ structure OpCore where
   slices3 : Bool
   returns : String
   copyGuard : Bool
+  pads3 : Bool
 deriving DecidableEq
 
 def factCore (f : OpFact) : OpCore :=
   ⟨f.cls, f.op, f.coordTarget, f.coordCols, f.coordOp, f.connOp, f.connCols, f.unitsOp, f.compact, f.reqLen, f.slices3,
-   f.returns, f.copyGuard⟩
+   f.returns, f.copyGuard, f.pads3⟩
 
 def OpCore.toFact (c : OpCore) : OpFact :=
   ⟨c.cls, c.op, c.coordTarget, c.coordCols, c.coordOp, c.connOp, c.connCols, c.unitsOp, c.compact, "", [], false, c.reqLen,
-   c.slices3, c.returns, c.copyGuard⟩
+   c.slices3, c.returns, c.copyGuard, c.pads3⟩
 
 /-- the operator table the hand-written model `mul / div / add / sub` corresponds to -/
 def expectedCore (k : Kind) (op : OpK) : OpCore :=
   match k with
   | .tree => ⟨"TreeNeuron", op.name, "nodes", if op.scaling then ["x", "y", "z", "radius"] else ["x", "y", "z"], op.sym, op.sym,
-              ["x", "y", "z"], op.inv, op.scaling, if op.scaling then 4 else 3, op.scaling, "n", true⟩
-  | .mesh => ⟨"MeshNeuron", op.name, "vertices", [], op.sym, op.sym, ["x", "y", "z"], op.inv, op.scaling, 0, false, "n", true⟩
-  | .dotprops => ⟨"Dotprops", op.name, "points", [], op.sym, op.sym, ["x", "y", "z"], op.inv, op.scaling, 0, false, "n", true⟩
+              ["x", "y", "z"], op.inv, op.scaling, if op.scaling then 4 else 3, op.scaling, "n", true, op.scaling⟩
+  | .mesh => ⟨"MeshNeuron", op.name, "vertices", [], op.sym, op.sym, ["x", "y", "z"], op.inv, op.scaling, 0, false, "n", true, false⟩
+  | .dotprops => ⟨"Dotprops", op.name, "points", [], op.sym, op.sym, ["x", "y", "z"], op.inv, op.scaling, 0, false, "n", true, false⟩
   | .voxel => ⟨"VoxelNeuron", op.name, "offset", [], op.sym, op.sym, ["x", "y", "z"], if op.scaling then op.sym else "",
-               op.scaling, 0, false, "n", true⟩
+               false, 0, false, "n", true, false⟩
 
 def allKinds : List Kind := [.tree, .mesh, .dotprops, .voxel]
 def allOps : List OpK := [.mul, .div, .add, .sub]
